@@ -76,9 +76,49 @@ func ruleRowCache(p *Prog, r *Result) {
 		}
 	}
 	isCtx := func(v ssa.Value) bool { return typeName(v.Type()) == "ExecuteCtx" }
+	// clearsParam: a package helper that does nothing but empty the context it is given (when it is not nil):
+	// every call in it is Clear on its parameter, and it writes nothing else
+	clearsParam := func(g *ssa.Function) int {
+		if g == nil || !p.InPkg(g) || len(g.Blocks) == 0 || g.Signature.Results().Len() != 0 {
+			return -1
+		}
+		idx := -1
+		okAll := true
+		n := 0
+		allInstrs(g, func(in ssa.Instruction) {
+			switch x := in.(type) {
+			case ssa.CallInstruction:
+				n++
+				if x.Common().StaticCallee() != clr || len(x.Common().Args) == 0 {
+					okAll = false
+					return
+				}
+				for i, pa := range g.Params {
+					if x.Common().Args[0] == ssa.Value(pa) {
+						idx = i
+					}
+				}
+			case *ssa.Store, *ssa.MapUpdate:
+				okAll = false
+			}
+		})
+		if !okAll || n == 0 {
+			return -1
+		}
+		return idx
+	}
 	isClearOn := func(in ssa.Instruction, ctx ssa.Value) bool {
 		c, ok := in.(*ssa.Call)
-		return ok && c.Call.StaticCallee() == clr && len(c.Call.Args) > 0 && c.Call.Args[0] == ctx
+		if !ok {
+			return false
+		}
+		if c.Call.StaticCallee() == clr && len(c.Call.Args) > 0 && c.Call.Args[0] == ctx {
+			return true
+		}
+		if i := clearsParam(c.Call.StaticCallee()); i >= 0 && i < len(c.Call.Args) && c.Call.Args[i] == ctx {
+			return true
+		}
+		return false
 	}
 	// clearedBefore: a Clear(ctx) dominates instruction t inside region (nil = whole function),
 	// directly or as the body of an `if ctx != nil { ctx.Clear() }` whose test dominates t.
